@@ -1,4 +1,4 @@
-import CueVerif.Proofs.ModCacheBase
+import CueVerif.Proofs.ModCacheStep3
 /-! C16: `Inv` is preserved by the transitions of each program point (part 4) -/
 namespace CueVerif.ModCache
 
